@@ -31,6 +31,7 @@ pub struct TraceOut {
     pub overlaps: u64,
     pub max_inside: usize,
     pub panics_injected: u64,
+    pub unwinding_dispatches: u64,
     pub layout: String,
     pub nontrivial: bool,
     pub sample_log: String,
@@ -215,6 +216,12 @@ pub fn eval_case(ops: &[Op], drv: Option<&mut Drv>, pools: &[Pool], rng: &mut Rn
         plan_rounds.clear();
         let mut cands = all_tags.clone();
         rng.shuffle(&mut cands);
+        // a thread-local system inside a batch (it runs on a pool worker) first, more often than not
+        if let Some(i) = cands.iter().position(|t| built.infos[t].is_tl && built.infos[t].parent.is_some()) {
+            if rng.chance(60) {
+                cands.swap(0, i);
+            }
+        }
         for t in cands.into_iter().take(6) {
             let mode = if rng.chance(75) { "par" } else { "seq" };
             let how = if built.infos[&t].is_batch || rng.chance(50) {
@@ -226,6 +233,10 @@ pub fn eval_case(ops: &[Op], drv: Option<&mut Drv>, pools: &[Pool], rng: &mut Rn
             } else {
                 4
             };
+            // flat plans: the caller of dispatch itself still holds a guard on something the system
+            // fetches (the documented way to make dispatch panic); the system's fetch is refused by the world
+            let (fr, fw) = (built.infos[&t].r.clone(), built.infos[&t].w.clone());
+            let how = if Op::depth(ops) == 0 && !(fr.is_empty() && fw.is_empty()) && rng.chance(25) { 5 } else { how };
             plan_rounds.push((mode.to_string(), Some(t), how));
             // the clean dispatch after it: the same way, or another way of dispatching (what one
             // entry point leaves behind when it unwinds must not disturb another)
@@ -287,6 +298,7 @@ pub fn eval_case(ops: &[Op], drv: Option<&mut Drv>, pools: &[Pool], rng: &mut Rn
             }
         }
         let mut panicking: Vec<usize> = vec![];
+        let mut outer_guard: Option<Box<dyn Cell + '_>> = None;
         if let Some(t) = panic_tag {
             if t == usize::MAX {
                 let mut wide: Vec<&Vec<Vec<usize>>> = lay.stages.iter().chain(lay.inner.values().flat_map(|l| l.stages.iter())).filter(|st| st.len() > 1).collect();
@@ -302,8 +314,17 @@ pub fn eval_case(ops: &[Op], drv: Option<&mut Drv>, pools: &[Pool], rng: &mut Rn
             } else {
                 panicking.push(t);
             }
-            for p in &panicking {
-                shared.behav[*p].panic_mode.store(how, SeqCst);
+            if how == 5 {
+                let (fr, fw) = (built.infos[&panicking[0]].r.clone(), built.infos[&panicking[0]].w.clone());
+                let all: Vec<Res> = fr.into_iter().chain(fw).collect();
+                let x = *rng.pick(&all);
+                // everybody who fetches x is refused (whoever gets that far)
+                panicking = all_tags.iter().copied().filter(|t| built.infos[t].r.contains(&x) || built.infos[t].w.contains(&x)).collect();
+                outer_guard = Some(borrow_excl(&world, x));
+            } else {
+                for p in &panicking {
+                    shared.behav[*p].panic_mode.store(how, SeqCst);
+                }
             }
             out.panics_injected += panicking.len() as u64;
         }
@@ -313,7 +334,18 @@ pub fn eval_case(ops: &[Op], drv: Option<&mut Drv>, pools: &[Pool], rng: &mut Rn
         shared.round.fetch_add(1, SeqCst);
         // `RunNow for Dispatcher` (dispatcher.rs) is another way to call `dispatch`
         let via_run_now = rng.chance(30);
-        let res = catch_unwind(AssertUnwindSafe(|| match mode.as_str() {
+        // the dispatch is issued by a destructor while the calling thread unwinds from a panic of its
+        // own (a guard that flushes one last frame): it runs like any other dispatch
+        let in_unwind = panicking.is_empty() && !cfg.panics && !Op::has_tl_in_batch(ops, false) && rng.chance(if cfg.force_overlap { 35 } else { 12 });
+        struct OnDrop<F: FnMut()>(F);
+        impl<F: FnMut()> Drop for OnDrop<F> {
+            fn drop(&mut self) {
+                (self.0)()
+            }
+        }
+        shared.caller_unwinding.store(in_unwind, SeqCst);
+        let res = catch_unwind(AssertUnwindSafe(|| {
+            let mut go = || match mode.as_str() {
             "seq" => {
                 disp.dispatch_seq(&world);
                 disp.dispatch_thread_local(&world);
@@ -324,7 +356,25 @@ pub fn eval_case(ops: &[Op], drv: Option<&mut Drv>, pools: &[Pool], rng: &mut Rn
             "tlonly" => disp.dispatch_thread_local(&world),
             _ if via_run_now => disp.run_now(&world),
             _ => disp.dispatch(&world),
+            };
+            if in_unwind {
+                let _g = OnDrop(go);
+                panic!("harness: the caller unwinds");
+            } else {
+                go()
+            }
         }));
+        shared.caller_unwinding.store(false, SeqCst);
+        let res = match res {
+            Err(p) if in_unwind && panic_message(&p) == "harness: the caller unwinds" => Ok(()),
+            Ok(()) if in_unwind => unreachable!(),
+            r => r,
+        };
+        if in_unwind {
+            out.unwinding_dispatches += 1;
+        }
+        let held_outside = outer_guard.is_some();
+        drop(outer_guard);
         let log = shared.take_log();
         out.traces += 1;
         out.events += log.len() as u64;
@@ -356,6 +406,7 @@ pub fn eval_case(ops: &[Op], drv: Option<&mut Drv>, pools: &[Pool], rng: &mut Rn
                 let m = panic_message(p);
                 let rd = shared.round.load(SeqCst);
                 let ok = panicking.iter().any(|t| m == format!("harness panic (run) {} #{}", t, rd) || m == format!("harness panic (fetch) {} #{}", t, rd) || m == format!("harness panic (typed) {} #{}", t, rd) || m == format!("harness panic (like-borrow) {} #{}: already borrowed", t, rd));
+                let ok = ok || (held_outside && m.contains("borrowed") && !m.starts_with("harness panic"));
                 if !ok {
                     out.impl_v.push(("C14".into(), format!("the panic that reached the caller carries {:?}, not the payload of a panicking system ({:?})", m, panicking)));
                 }
@@ -586,6 +637,7 @@ pub fn run(args: &Args, rep: &mut Report) {
         rep.add("overlapping_window_pairs_observed", o.overlaps);
         rep.add("cases_dispatched_through_send_dispatcher", o.sendable);
         rep.add("panics_injected", o.panics_injected);
+        rep.add("dispatches_issued_while_the_caller_unwinds", o.unwinding_dispatches);
         if o.max_inside > 1 {
             rep.count("cases_with_real_overlap");
         }
@@ -622,6 +674,10 @@ pub fn run(args: &Args, rep: &mut Report) {
             }
         }
         for (aspect, what) in &o.model_v {
+            if kf1 && aspect == "thread" && !kf1_props.contains(&prop.as_str()) {
+                // the thread a batch's thread-local system runs on is the open finding KF1 (C12)
+                continue;
+            }
             if reported.insert(format!("model:{}:{}", aspect, kf1)) {
                 let cls = if kf1 && matches!(aspect.as_str(), "trace" | "effects" | "thread") { "kf1:model" } else { "" };
                 rep.violate(&format!("MODEL:{}", aspect), "model", cls, format!("{} [{}; layout {}]", what, label, o.layout), case_lines(&ops));
